@@ -1,6 +1,7 @@
 (* C01 -- proofs about the model in HashModel.v: table level (one generation) *)
 From Coq Require Import ZArith List Lia Bool Permutation.
 From C01 Require Import HashModel ListAux HashSpec.
+From C01 Require IterMachine.
 Import ListNotations.
 Local Open Scope Z_scope.
 
@@ -74,6 +75,12 @@ Section TableProofs.
   Notation merge_loop := (merge_loop B b0 decode upd_bound h cap unlimited wf0 wfThr start next logStart calcCapacity shift maxLog).
   Notation wstep := (wstep B b0 decode upd_bound h cap unlimited wf0 wfThr start next logStart calcCapacity shift maxLog).
   Notation wrun := (wrun B b0 decode upd_bound h cap unlimited wf0 wfThr start next logStart calcCapacity shift maxLog).
+  Notation it_remove := (it_remove B b0 wf0).
+  Notation rf_loop := (rf_loop B b0 wf0).
+  Notation hremove_if_m := (hremove_if_m B b0 wf0).
+  Notation merge_m := (merge_m B b0 decode upd_bound h cap unlimited wf0 wfThr start next logStart calcCapacity shift maxLog).
+  Notation irest := (IterMachine.rest B).
+  Notation ivalid := (IterMachine.valid B).
   Notation run := (run B b0 decode upd_bound h cap unlimited wf0 wfThr start next logStart calcCapacity shift maxLog).
 
   (* the probe path of a hash code: path 0 = GetStartBucketIndex, path (p+1) = GetNextBucketIndex (path p) _ (p+1) *)
@@ -939,6 +946,100 @@ Section TableProofs.
       + intros Eg. apply I. auto.
   Qed.
 
+
+  (* ---------- Remove(filter) as the loop over the iterator machine ---------- *)
+  Lemma it_remove_refines s gi bi p x : Inv s -> ivalid s (Some (gi, bi, p)) -> it_get B s (Some (gi, bi, p)) = Some x ->
+    Inv (fst (it_remove s (Some (gi, bi, p)))) /\ Permutation (x :: hall (fst (it_remove s (Some (gi, bi, p))))) (hall s).
+  Proof.
+    intros I [t [b [Ht [Hb Hp]]]] G. unfold HashModel.it_get in G. rewrite Ht, Hb in G.
+    assert (It : TInv t). { pose proof (inv_t _ I) as F. rewrite Forall_forall in F. apply F. eapply nth_error_In; eauto. }
+    assert (Hbi : (bi < length (tbs t))%nat) by (apply nth_error_Some; congruence).
+    assert (Hi : 0 <= Z.of_nat bi < bcount t). { rewrite (ti_len _ It) in Hbi. pose proof (bcount_pos t (proj1 (ti_log _ It))). lia. }
+    assert (Egb : getb t (Z.of_nat bi) = b). { unfold HashModel.getb. rewrite Nat2Z.id. apply nth_error_nth. exact Hb. }
+    rewrite <- Egb in G.
+    destruct (tremove_spec t (Z.of_nat bi) p x It Hi G) as [Hs Pt].
+    unfold HashModel.it_remove. cbn [fst].
+    destruct (upd_gen_inv s gi t (fun t => tremove t (Z.of_nat bi) p) [x] (count s - 1) I Ht Hs Pt) as [I1 P1]; [simpl; lia|].
+    split; auto.
+  Qed.
+
+  Lemma rf_loop_spec p : forall fuel s it c pre s' c',
+    Inv s -> ivalid s it -> Permutation (hall s) (pre ++ irest s it) -> (length (irest s it) <= fuel)%nat ->
+    rf_loop fuel p s it c = (s', c') ->
+    Inv s' /\ Permutation (hall s') (pre ++ filter (negp p) (irest s it)) /\
+    c' = c + Z.of_nat (length (irest s it)) - Z.of_nat (length (filter (negp p) (irest s it))).
+  Proof.
+    induction fuel; intros s it c pre s' c' I V P Hl H.
+    - simpl in H. inversion H; subst. destruct (irest s' it); [|simpl in Hl; lia]. simpl. split; auto. split; auto. lia.
+    - destruct it as [[[gi bi] pp]|].
+      + destruct (IterMachine.rest_step B s gi bi pp V) as [x [G [V' E]]].
+        assert (U : rf_loop (S fuel) p s (Some (gi, bi, pp)) c =
+                    if p x then match it_remove s (Some (gi, bi, pp)) with (s1, it1) => rf_loop fuel p s1 it1 (c + 1) end
+                    else rf_loop fuel p s (it_next B s (Some (gi, bi, pp))) c).
+        { change (rf_loop (S fuel) p s (Some (gi, bi, pp)) c) with
+            (match it_get B s (Some (gi, bi, pp)) with
+             | None => (s, c)
+             | Some x => if p x then match it_remove s (Some (gi, bi, pp)) with (s1, it1) => rf_loop fuel p s1 it1 (c + 1) end
+                         else rf_loop fuel p s (it_next B s (Some (gi, bi, pp))) c end). rewrite G. reflexivity. }
+        rewrite U in H. clear U. rewrite E in *. cbn [length] in Hl.
+        assert (Ef : forall r, filter (negp p) (x :: r) = if p x then filter (negp p) r else x :: filter (negp p) r)
+          by (intros; simpl; unfold negp at 1; destruct (p x); reflexivity).
+        rewrite !Ef. clear Ef.
+        destruct (p x) eqn:Px.
+        * destruct (it_remove_refines s gi bi pp x I V G) as [I1 P1].
+          pose proof (IterMachine.it_remove_rest B b0 wf0 s gi bi pp V) as Er.
+          pose proof (IterMachine.it_remove_valid B b0 wf0 s gi bi pp V) as Vr.
+          destruct (it_remove s (Some (gi, bi, pp))) as [s1 it1]. cbn [fst snd] in *.
+          assert (P2 : Permutation (hall s1) (pre ++ irest s1 it1)).
+          { rewrite Er. apply (Permutation_cons_inv (a := x)). rewrite P1, P. apply Permutation_sym, Permutation_middle. }
+          rewrite <- Er in Hl |- *.
+          destruct (IHfuel _ _ _ _ _ _ I1 Vr P2 ltac:(lia) H) as [A1 [A2 A3]]. split; auto. split; auto.
+          change (length (x :: irest s1 it1)) with (S (length (irest s1 it1))). lia.
+        * assert (P2 : Permutation (hall s) ((pre ++ [x]) ++ irest s (it_next B s (Some (gi, bi, pp))))) by (rewrite <- app_assoc; exact P).
+          destruct (IHfuel _ _ _ _ _ _ I V' P2 ltac:(lia) H) as [A1 [A2 A3]]. split; auto. split.
+          -- rewrite A2. rewrite <- app_assoc. reflexivity.
+          -- change (length (x :: irest s (it_next B s (Some (gi, bi, pp))))) with (S (length (irest s (it_next B s (Some (gi, bi, pp)))))).
+             change (length (x :: filter (negp p) (irest s (it_next B s (Some (gi, bi, pp)))))) with (S (length (filter (negp p) (irest s (it_next B s (Some (gi, bi, pp))))))). lia.
+      + simpl in H. inversion H; subst. simpl. rewrite app_nil_r in *. split; auto. split; auto. lia.
+  Qed.
+
+  Lemma hremove_if_m_spec s p s' c : Inv s -> hremove_if_m s p = (s', c) ->
+    Inv s' /\ Permutation (hall s') (filter (negp p) (hall s)) /\
+    c = Z.of_nat (length (hall s)) - Z.of_nat (length (hall s')).
+  Proof.
+    intros I H. unfold HashModel.hremove_if_m, HashModel.it_begin in H.
+    destruct (Z.eqb_spec (count s) 0) as [E0|E0].
+    - assert (Hn : hall s = []) by (apply hall_count0; auto).
+      destruct (length (traverse B s)); simpl in H; inversion H; subst; rewrite Hn; simpl; auto.
+    - destruct (IterMachine.begin_spec B s) as [V E].
+      assert (P : Permutation (hall s) ([] ++ irest s (first_in_gens B (gens s) 0))) by (rewrite E; simpl; apply Permutation_sym, traverse_perm).
+      assert (Hl : (length (irest s (first_in_gens B (gens s) 0)) <= length (traverse B s))%nat) by (rewrite E; lia).
+      destruct (rf_loop_spec p _ _ _ _ _ _ _ I V P Hl H) as [A1 [A2 A3]]. simpl in A2.
+      rewrite E in *.
+      assert (Pf : Permutation (filter (negp p) (traverse B s)) (filter (negp p) (hall s))) by (apply Permutation_filter, traverse_perm).
+      split; auto. split; [rewrite A2; exact Pf|].
+      rewrite (Permutation_length A2). rewrite (Permutation_length (traverse_perm s)) in A3. lia.
+  Qed.
+
+  Lemma upd_gen_logs gs gi (f : table -> table) : (forall t, tlog (f t) = tlog t) -> map (@tlog B) (upd_gen B gs gi f) = map (@tlog B) gs.
+  Proof.
+    intros Hf. unfold HashModel.upd_gen. destruct (nth_error gs gi) as [t|] eqn:E; auto.
+    revert gi E. induction gs as [|a r IH]; intros gi E; destruct gi; simpl in *; try discriminate.
+    - inversion E; subst. rewrite Hf. reflexivity.
+    - f_equal. apply IH; auto.
+  Qed.
+
+  Lemma rf_loop_logs p : forall fuel s it c, map (@tlog B) (gens (fst (rf_loop fuel p s it c))) = map (@tlog B) (gens s) /\
+                                              capacity (fst (rf_loop fuel p s it c)) = capacity s.
+  Proof.
+    induction fuel; intros s it c; simpl; auto.
+    destruct (it_get B s it) as [x|]; auto. destruct (p x); [|apply IHfuel].
+    destruct it as [[[gi bi] pp]|]; [|simpl; apply IHfuel].
+    unfold HashModel.it_remove.
+    match goal with |- context [rf_loop fuel p ?s1 ?i1 ?c1] => destruct (IHfuel s1 i1 c1) as [A1 A2] end.
+    rewrite A1, A2. simpl. split; auto. apply upd_gen_logs. reflexivity.
+  Qed.
+
   (* ================= refinement of the abstract finite map ================= *)
   Definition R (s : hset) (m : list item) : Prop := Inv s /\ Permutation (hall s) m.
 
@@ -1036,9 +1137,9 @@ Section TableProofs.
     - (* count *)
       intros H; inversion H; subst. right. split; auto. simpl. rewrite (inv_count _ I), (Permutation_length P). reflexivity.
     - (* remove by predicate *)
-      destruct (hremove_if B s (fun kv : item => fst kv mod md =? r)) as [s1 c] eqn:E.
+      destruct (hremove_if_m s (fun kv : item => fst kv mod md =? r)) as [s1 c] eqn:E.
       intros H; inversion H; subst; clear H. right.
-      destruct (hremove_if_spec s _ _ _ I E) as [I1 [P1 C1]].
+      destruct (hremove_if_m_spec s _ _ _ I E) as [I1 [P1 C1]].
       split; [split; auto|].
       + rewrite P1. apply Permutation_filter. exact P.
       + simpl. rewrite C1. rewrite (Permutation_length P1).
@@ -1150,6 +1251,74 @@ Section TableProofs.
         * inversion H; subst. exists ma, mb, []. simpl. repeat (split; auto). discriminate.
   Qed.
 
+
+  (* MergeTo as the loop over the iterator machine *)
+  Lemma merge_m_spec : forall fuel a b it ma mb pre a' b' ok,
+    R a ma -> R b mb -> ivalid a it -> Permutation (hall a) (pre ++ irest a it) -> (length (irest a it) <= fuel)%nat ->
+    merge_m fuel a b it = (a', b', ok) ->
+    exists ma' mb' moved, R a' ma' /\ R b' mb' /\ Permutation (moved ++ ma') ma /\ Permutation mb' (moved ++ mb) /\
+                          (ok = true -> moved = moved_of (irest a it) mb).
+  Proof.
+    induction fuel; intros a b it ma mb pre a' b' ok Ra Rb V P Hl H.
+    - simpl in H. inversion H; subst. destruct (irest a' it); [|simpl in Hl; lia]. exists ma, mb, []. simpl. auto.
+    - destruct it as [[[gi bi] pp]|]; [|simpl in H; inversion H; subst; exists ma, mb, []; simpl; auto].
+      destruct (IterMachine.rest_step B a gi bi pp V) as [[k v] [G [V' E]]].
+      pose proof Ra as [Ia Pa]. pose proof Rb as [Ib Pb]. pose proof (R_nodup _ _ Rb) as NDb. pose proof (R_nodup _ _ Ra) as NDa.
+      assert (U : merge_m (S fuel) a b (Some (gi, bi, pp)) =
+                  match hfind b k with
+                  | Some _ => merge_m fuel a b (it_next B a (Some (gi, bi, pp)))
+                  | None => match hadd b (k, v) None with
+                            | None => (a, b, false)
+                            | Some b1 => match it_remove a (Some (gi, bi, pp)) with (a1, it1) => merge_m fuel a1 b1 it1 end
+                            end
+                  end).
+      { change (merge_m (S fuel) a b (Some (gi, bi, pp))) with
+          (match it_get B a (Some (gi, bi, pp)) with
+           | None => (a, b, true)
+           | Some (k, v) =>
+             match hfind b k with
+             | Some _ => merge_m fuel a b (it_next B a (Some (gi, bi, pp)))
+             | None => match hadd b (k, v) None with
+                       | None => (a, b, false)
+                       | Some b1 => match it_remove a (Some (gi, bi, pp)) with (a1, it1) => merge_m fuel a1 b1 it1 end
+                       end
+             end end). rewrite G. reflexivity. }
+      rewrite U in H. clear U. rewrite E in *. cbn [length] in Hl.
+      assert (Hkv : In (k, v) ma). { apply (Permutation_in _ Pa). apply (Permutation_in _ (Permutation_sym P)). apply in_or_app. right. left. reflexivity. }
+      destruct (hfind b k) as [[[[gi0 idx0] pos0] v0]|] eqn:Ef.
+      + pose proof (hfind_in _ _ _ _ _ _ Ib Ef) as Hb. apply (Permutation_in _ Pb) in Hb.
+        assert (P2 : Permutation (hall a) ((pre ++ [(k, v)]) ++ irest a (it_next B a (Some (gi, bi, pp))))) by (rewrite <- app_assoc; exact P).
+        destruct (IHfuel _ _ _ _ _ _ _ _ _ Ra Rb V' P2 ltac:(lia) H) as [ma' [mb' [mv [A1 [A2 [A3 [A4 A5]]]]]]].
+        exists ma', mb', mv. repeat (split; auto). intros Hok. cbn [moved_of].
+        assert (Hm : sp_mem mb k = true) by (apply sp_mem_iff, in_keys; eauto). rewrite Hm. auto.
+      + pose proof (hfind_none _ _ Ib Ef) as Hno.
+        assert (Hnm : ~ In k (map fst mb)). { intro Hi. apply Hno. apply (Permutation_in _ (Permutation_map fst (Permutation_sym Pb))). exact Hi. }
+        assert (Hm : sp_mem mb k = false). { destruct (sp_mem mb k) eqn:Em; auto. apply sp_mem_iff in Em. contradiction. }
+        destruct (hadd b (k, v) None) as [b1|] eqn:Ea.
+        * destruct (hadd_spec _ _ _ _ _ Ib Hno Ea) as [I1 P1].
+          assert (Rb1 : R b1 ((k, v) :: mb)) by (split; auto; rewrite P1; apply perm_skip; exact Pb).
+          destruct (it_remove_refines a gi bi pp (k, v) Ia V G) as [Ia1 Pa1].
+          pose proof (IterMachine.it_remove_rest B b0 wf0 a gi bi pp V) as Er.
+          pose proof (IterMachine.it_remove_valid B b0 wf0 a gi bi pp V) as Vr.
+          destruct (it_remove a (Some (gi, bi, pp))) as [a1 it1]. cbn [fst snd] in *.
+          assert (Ra1 : R a1 (sp_remove k ma)).
+          { split; auto. apply (sp_remove_perm _ _ k v NDa). rewrite Pa1. exact Pa. }
+          assert (P2 : Permutation (hall a1) (pre ++ irest a1 it1)).
+          { rewrite Er. apply (Permutation_cons_inv (a := (k, v))). rewrite Pa1, P. apply Permutation_sym, Permutation_middle. }
+          rewrite <- Er in Hl.
+          destruct (IHfuel _ _ _ _ _ _ _ _ _ Ra1 Rb1 Vr P2 ltac:(lia) H) as [ma' [mb' [mv [A1 [A2 [A3 [A4 A5]]]]]]].
+          exists ma', mb', ((k, v) :: mv). split; auto. split; auto. split; [|split].
+          -- simpl. destruct (in_split _ _ Hkv) as [l1 [l2 El]].
+             assert (Pr : Permutation ((k, v) :: sp_remove k ma) ma).
+             { apply Permutation_sym. rewrite El at 1. apply Permutation_sym.
+               apply Permutation_trans with ((k, v) :: l1 ++ l2); [|apply Permutation_middle].
+               apply perm_skip. apply Permutation_sym. apply (sp_remove_perm _ _ k v NDa). rewrite El. apply Permutation_middle. }
+             rewrite <- Pr. apply perm_skip. exact A3.
+          -- rewrite A4. simpl. apply Permutation_sym, Permutation_middle.
+          -- intros Hok. cbn [moved_of]. rewrite Hm. f_equal. rewrite <- Er. auto.
+        * inversion H; subst. exists ma, mb, []. simpl. repeat (split; auto). discriminate.
+  Qed.
+
   Theorem wstep_refines w m o w' x : WR w m -> wstep w o = (w', x) ->
     (x = RExn /\ (w' = w \/ exists m', WR w' m' /\ o = WMergeAB /\
         Permutation (fst (fst m') ++ snd (fst m')) (fst (fst m) ++ snd (fst m)) /\ snd m' = snd m)) \/
@@ -1180,15 +1349,17 @@ Section TableProofs.
       + simpl in Ra', Ho. destruct (sp_mem ma ke); simpl in Ra', Ho; apply out_equiv_bool in Ho; subst y; inversion H; subst; right; simpl; auto.
     - intros H; inversion H; subst. right. simpl. auto.
     - intros H; inversion H; subst. right. simpl. split; auto. split; auto. split; [apply hinit_inv|reflexivity].
-    - set (its := if count a =? 0 then [] else traverse B a).
-      destruct (merge_loop its a b) as [[a' b'] ok] eqn:E. intros H; inversion H; subst; clear H.
-      assert (Pits : Permutation its ma).
-      { unfold its. destruct (Z.eqb_spec (count a) 0) as [E0|E0].
-        - rewrite (hall_count0 _ Ia E0) in Pa. exact Pa.
-        - rewrite traverse_perm. exact Pa. }
+    - set (its := irest a (it_begin B a)).
+      destruct (merge_m (length (traverse B a)) a b (it_begin B a)) as [[a' b'] ok] eqn:E. intros H; inversion H; subst; clear H.
+      assert (Hb : ivalid a (it_begin B a) /\ Permutation its ma /\ (length its <= length (traverse B a))%nat).
+      { unfold its, HashModel.it_begin. destruct (Z.eqb_spec (count a) 0) as [E0|E0].
+        - simpl. rewrite (hall_count0 _ Ia E0) in Pa. split; auto. split; auto. lia.
+        - destruct (IterMachine.begin_spec B a) as [V0 E1]. rewrite E1. split; auto. split; [rewrite traverse_perm; exact Pa|lia]. }
+      destruct Hb as [V0 [Pits Hlen]].
       assert (NDi : NoDup (map fst its)) by (eapply NoDup_keys_perm; [apply Permutation_sym; exact Pits|exact NDa]).
-      assert (Hin : forall kv, In kv its -> In kv ma) by (intros kv; apply Permutation_in; exact Pits).
-      destruct (merge_loop_spec _ _ _ _ _ _ _ _ Ra Rb NDi Hin E) as [ma' [mb' [mv [A1 [A2 [A3 [A4 A5]]]]]]].
+      assert (P0 : Permutation (hall a) ([] ++ its)) by (simpl; rewrite Pa; apply Permutation_sym; exact Pits).
+      destruct (merge_m_spec _ _ _ _ _ _ _ _ _ _ Ra Rb V0 P0 Hlen E) as [ma' [mb' [mv [A1 [A2 [A3 [A4 A5]]]]]]].
+      fold its in A5.
       destruct ok.
       + right. simpl. specialize (A5 eq_refl). rewrite (moved_of_filter _ _ NDi) in A5.
         assert (Pmv : Permutation mv (filter (fun kv => negb (sp_mem mb (fst kv))) ma)) by (subst mv; apply Permutation_filter; exact Pits).
@@ -1438,12 +1609,12 @@ Section TableProofs.
       + unfold HashModel.bcount. simpl. apply calc_le. lia.
     - unfold HashModel.hclear. destruct (gens s) as [|t r] eqn:Eg; auto. destruct shrink; [exact Logic.I|].
       unfold CapOK in *. simpl. rewrite Eg in C. exact C.
-    - destruct (hremove_if B s (fun kv : item => fst kv mod md =? r)) as [s1 c] eqn:E. simpl. revert E.
-      unfold HashModel.hremove_if. destruct (count s =? 0); [intros H; inversion H; subst; auto|].
-      destruct (gens_rem_if B _ (gens s) 0) as [gs c1] eqn:Eg. intros H; inversion H; subst.
-      pose proof (gens_rem_if_head _ _ _ _ _ Eg) as Hh.
-      unfold CapOK in *. simpl. destruct (gens s) as [|t r0]; destruct gs as [|t' r']; simpl in *; auto; try contradiction.
-      rewrite (bcount_log _ _ Hh). exact C.
+    - destruct (hremove_if_m s (fun kv : item => fst kv mod md =? r)) as [s1 c] eqn:E. simpl.
+      unfold HashModel.hremove_if_m in E.
+      pose proof (rf_loop_logs (fun kv : item => fst kv mod md =? r) (length (traverse B s)) s (it_begin B s) 0) as [L Cp].
+      rewrite E in L, Cp. simpl in L, Cp.
+      unfold CapOK in *. rewrite Cp. destruct (gens s) as [|t r0]; destruct (gens s1) as [|t' r']; simpl in L; try discriminate; auto.
+      inversion L. rewrite (bcount_log _ _ H0). exact C.
     - destruct (hcopy s) as [s1|] eqn:E; auto. simpl. revert E. unfold HashModel.hcopy.
       destruct (count s =? 0); [intros H; inversion H; exact Logic.I|].
       destruct (copy_log calcCapacity 64 logStart (count s)) as [l|] eqn:El; [|discriminate].
@@ -1623,6 +1794,12 @@ Section Packaged.
     { simpl. split; [|split; auto]; (split; [apply hinit_inv|reflexivity]). }
     eapply wrun_refines; eauto.
   Qed.
+
+  (* Remove(filter) -- defined in `step` as the loop over the iterator machine -- removes exactly the matching items *)
+  Theorem remove_if_machine_spec : forall s p s' c, Inv' s -> hremove_if_m B b0 wf0 s p = (s', c) ->
+    Inv' s' /\ Permutation (hall B s') (filter (negp p) (hall B s)) /\
+    c = Z.of_nat (length (hall B s)) - Z.of_nat (length (hall B s')).
+  Proof. destruct OK. intros. eapply hremove_if_m_spec; eauto. Qed.
 
   (* ALL histories of the pair of containers, interrupted MergeTo included (relation wtrace) *)
   Theorem world_traces_all_histories : forall os,
